@@ -265,23 +265,51 @@ def r10g(ctx: Ctx, only: tuple[str, ...] | None = None) -> list[Ob]:
             if m is None or m.is_abstract:
                 continue
             writes = []
+            benign = []
+            ld = LocalDefs(m.node)
             for n in walk_no_nested(m.node):
                 targets: list[ast.AST] = []
                 if isinstance(n, ast.Assign):
                     targets = list(n.targets)
                 elif isinstance(n, (ast.AnnAssign, ast.AugAssign)):
                     targets = [n.target]
+                value = getattr(n, "value", None)
                 for t in targets:
                     for x in ast.walk(t):
                         a = is_self_attr(x)
                         if a:
-                            writes.append((a, n.lineno))
+                            # only a value computed from the module's state (a call of a parameter, a
+                            # sub-layer, evaluate(), or of the method's inputs) can go stale; an index /
+                            # shape helper built from sizes cannot
+                            dep = False
+                            params_ = {p.name for p in m.params if p.name != "self"}
+                            for e in (ld.expand(value) if value is not None else []):
+                                for c_ in ast.walk(e):
+                                    if isinstance(c_, ast.Call) and isinstance(c_.func, ast.Attribute):
+                                        root = c_.func
+                                        while isinstance(root, (ast.Attribute, ast.Call, ast.Subscript)):
+                                            root = root.func if isinstance(root, ast.Call) else root.value
+                                        if isinstance(root, ast.Name) and root.id == "self" and c_.func.attr not in ("size", "dim", "numel", "new_empty"):
+                                            dep = True
+                                    if isinstance(c_, ast.Name) and c_.id in params_:
+                                        dep = True
+                            (writes if dep or isinstance(n, ast.AugAssign) else benign).append((a, n.lineno))
                 if isinstance(n, ast.Call) and isinstance(n.func, ast.Name) and n.func.id == "setattr" and n.args and isinstance(n.args[0], ast.Name) and n.args[0].id == "self":
                     writes.append(("setattr", n.lineno))
+            # a store matters only if some evaluation method of the class reads the attribute back
+            read_back: set[str] = set()
+            for em in EVAL_METHODS:
+                mm = ctx.repo.lookup(c, em)
+                if mm is None:
+                    continue
+                for x in walk_no_nested(mm.node):
+                    if isinstance(x, ast.Attribute) and isinstance(x.ctx, ast.Load) and isinstance(x.value, ast.Name) and x.value.id == "self":
+                        read_back.add(x.attr)
+            writes = [(a, ln) for a, ln in writes if a in read_back or a == "setattr"]
             inst = f"pure:{mname}"
             if writes:
                 a, ln = writes[0]
-                obs.append(viol("R10g", c.qualname, inst, f"{c.name}.{mname} stores self.{a} while evaluating: the stored value outlives in-place updates / re-initialisation / load_state_dict of the parameters it was computed from", f"{m.module.relpath}:{ln}"))
+                obs.append(viol("R10g", c.qualname, inst, f"{c.name}.{mname} stores self.{a} while evaluating and evaluation reads it back: the stored value outlives in-place updates / re-initialisation / load_state_dict of the parameters it was computed from", f"{m.module.relpath}:{ln}"))
             else:
                 obs.append(ok("R10g", c.qualname, inst, "no state written during evaluation", m.loc, nontrivial=False))
     return obs
